@@ -19,6 +19,12 @@
     parameter `cbFail` (the harness' callback refuses `!fail` / `!failclose`).
   * widths: section ids are `uint64_t` throughout (the harness sends values < 2^64); `level` is
     `uint8_t`, and opening a section at level 255 is a parse error, so it never wraps.
+
+  * NO AMBIENT STATE: the model has no `errno` that exists before the call and no notion of the kind of
+    file behind a path (regular file, pipe, FIFO): results are functions of the arguments and the bytes
+    delivered. The harness plants a different errno value (0, ENOMEM, ERANGE, EINTR, ENOENT, EINVAL,
+    EAGAIN, ENOBUFS) before every library call and feeds documents through pipes as well as files; a
+    result that depends on either is a correspondence break (a hang: the per-call watchdog).
 -/
 import QlibcModel.Base.Fault
 import QlibcModel.Str.Spec
